@@ -43,12 +43,18 @@ CaseResult body_objective(Chooser& ch, Stats* st) {
   QuietStderr q;
   FitGenOpts fo; fo.max_ndim = 4; fo.max_coeff = 260; fo.max_rows = 3000;
   FitProblem p = gen_fit_problem(ch, fo);
+  // weights of any absolute size: scaling all weights and all smoothing strengths by one factor leaves the
+  // minimiser where it is, so nothing in the fit may depend on their absolute magnitude
+  static const double wscales[] = {1, 1, 1, 1e-12, 1e-7, 1e5, 1e-15};
+  double wscale = gen_version() >= 2 ? wscales[ch.draw(0, 6)] : 1.0;
+  if (wscale != 1.0) { for (double& v : p.w) v *= wscale; for (double& v : p.smooth) v *= wscale; }
   r.json = p.json();
   DenseSys S = assemble_reference(p);
   std::vector<LD> L;
   if (!cholesky_ld(S.A, S.n, L)) { r.discard = true; if (st) st->label("discard:not_positive_definite"); return r; }
   LD cond = cond_estimate(S.A, L, S.n);
   if (!(cond < 1e6L)) { r.discard = true; if (st) st->label("discard:ill_conditioned"); return r; }
+  if (st) st->label("weight_scale:" + jnum(wscale));
   Table t;
   try { run_fit(t, p, Table::no_monodim); } catch (std::exception& e) { r.fail = std::string("fit threw on a well-posed problem: ") + e.what(); return r; }
   if (t.get_ncoeffs() != S.n) { r.fail = "fit produced " + std::to_string(t.get_ncoeffs()) + " coefficients, expected " + std::to_string(S.n); return r; }
